@@ -22,6 +22,7 @@ type strmState struct {
 	sums    [][]string        // S at each state.Sum
 	cells   map[ssa.Value]string // content token of local cells (challenge)
 	vals    map[ssa.Value]string // tokens of call results computed on this path (digest)
+	ints    map[ssa.Value]int64  // concrete values of integer phis (loops over a literal list of chunks)
 	ret     string
 	notes   []string
 	undec   string
@@ -39,6 +40,10 @@ func (s *strmState) clone() *strmState {
 	n.vals = map[ssa.Value]string{}
 	for k, v := range s.vals {
 		n.vals[k] = v
+	}
+	n.ints = map[ssa.Value]int64{}
+	for k, v := range s.ints {
+		n.ints[k] = v
 	}
 	n.notes = append([]string(nil), s.notes...)
 	return n
@@ -94,6 +99,28 @@ func (c *Ctx) strmTok(v ssa.Value, fr *strmFrame, st *strmState, d int) string {
 		return "?call:" + core.CalleeName(x.Common())
 	case *ssa.UnOp:
 		if x.Op == token.MUL {
+			// element k of a literal list: the value stored at that position
+			if ia, isIA := x.X.(*ssa.IndexAddr); isIA {
+				if k, okK := strmInt(ia.Index, st); okK {
+					base := ia.X
+					if sl, isSl := base.(*ssa.Slice); isSl && sl.Low == nil {
+						base = sl.X
+					}
+					if al, isAl := base.(*ssa.Alloc); isAl {
+						for _, r := range core.Refs(al) {
+							if ea, ok := r.(*ssa.IndexAddr); ok {
+								if kk, isK := core.ConstInt(ea.Index); isK && kk == k {
+									for _, rr := range core.Refs(ea) {
+										if stt, ok := rr.(*ssa.Store); ok && stt.Addr == ssa.Value(ea) {
+											return c.strmTok(stt.Val, fr, st, d+1)
+										}
+									}
+								}
+							}
+						}
+					}
+				}
+			}
 			if t, ok := st.cells[x.X]; ok {
 				return "*{" + t + "}"
 			}
@@ -138,21 +165,53 @@ func (c *Ctx) strmRun(fr *strmFrame, st *strmState, depth int) []*strmState {
 		return []*strmState{st}
 	}
 	var out []*strmState
-	var walk func(b *ssa.BasicBlock, st *strmState, onPath map[*ssa.BasicBlock]bool, budget *int)
-	walk = func(b *ssa.BasicBlock, st *strmState, onPath map[*ssa.BasicBlock]bool, budget *int) {
+	var walk func(b, pred *ssa.BasicBlock, st *strmState, visits map[*ssa.BasicBlock]int, budget *int)
+	walk = func(b, pred *ssa.BasicBlock, st *strmState, visits map[*ssa.BasicBlock]int, budget *int) {
 		if *budget <= 0 {
 			st.undec = "too many paths"
 			out = append(out, st)
 			return
 		}
 		*budget--
-		if onPath[b] {
-			st.undec = "loop in " + core.FnName(fr.fn)
+		// phis: integers concretely (a loop over a literal list of chunks is simply run), everything else as tokens
+		if pred != nil {
+			idx := -1
+			for i, p := range b.Preds {
+				if p == pred {
+					idx = i
+				}
+			}
+			newInts := map[ssa.Value]int64{}
+			newVals := map[ssa.Value]string{}
+			for _, ins := range b.Instrs {
+				phi, ok := ins.(*ssa.Phi)
+				if !ok {
+					break
+				}
+				if idx < 0 {
+					continue
+				}
+				if k, ok := strmInt(phi.Edges[idx], st); ok {
+					newInts[phi] = k
+				} else {
+					delete(st.ints, phi)
+					newVals[phi] = c.strmTok(phi.Edges[idx], fr, st, 0)
+				}
+			}
+			for k, v := range newInts {
+				st.ints[k] = v
+			}
+			for k, v := range newVals {
+				st.vals[k] = v
+			}
+		}
+		visits[b]++
+		defer func() { visits[b]-- }()
+		if visits[b] > 40 {
+			st.undec = "loop in " + core.FnName(fr.fn) + " that does not terminate on concrete values"
 			out = append(out, st)
 			return
 		}
-		onPath[b] = true
-		defer delete(onPath, b)
 		states := []*strmState{st}
 		for _, ins := range b.Instrs {
 			var next []*strmState
@@ -174,20 +233,48 @@ func (c *Ctx) strmRun(fr *strmFrame, st *strmState, depth int) []*strmState {
 				out = append(out, s)
 			case *ssa.Panic:
 				// aborting: no obligation
-			default:
-				for i, succ := range b.Succs {
-					ns := s
-					if i < len(b.Succs)-1 {
-						ns = s.clone()
+			case *ssa.If:
+				if k, ok := strmInt(x.Cond, s); ok {
+					// decided on concrete integers
+					succ := b.Succs[1]
+					if k != 0 {
+						succ = b.Succs[0]
 					}
-					walk(succ, ns, onPath, budget)
+					walk(succ, b, s, visits, budget)
+					continue
+				}
+				if visits[b] > 1 {
+					s.undec = "loop in " + core.FnName(fr.fn)
+					out = append(out, s)
+					continue
+				}
+				walk(b.Succs[0], b, s.clone(), visits, budget)
+				walk(b.Succs[1], b, s, visits, budget)
+			default:
+				for _, succ := range b.Succs {
+					walk(succ, b, s, visits, budget)
 				}
 			}
 		}
 	}
-	budget := 400
-	walk(fr.fn.Blocks[0], st, map[*ssa.BasicBlock]bool{}, &budget)
+	budget := 2000
+	walk(fr.fn.Blocks[0], nil, st, map[*ssa.BasicBlock]int{}, &budget)
 	return out
+}
+
+// strmInt: the concrete value of an integer/boolean expression on this path.
+func strmInt(v ssa.Value, st *strmState) (int64, bool) {
+	return core.EvalInt(v, func(x ssa.Value) (int64, bool) {
+		if k, ok := st.ints[x]; ok {
+			return k, true
+		}
+		if call, ok := x.(*ssa.Call); ok {
+			if b, isB := call.Call.Value.(*ssa.Builtin); isB && b.Name() == "len" {
+				return constLen(call.Call.Args[0], 0)
+			}
+		}
+		return 0, false
+	})
 }
 
 func (c *Ctx) strmStep(ins ssa.Instruction, fr *strmFrame, st *strmState, depth int) []*strmState {
@@ -286,7 +373,7 @@ func (c *Ctx) strmCheck(name, key, expectDesc string, check func(e *strmState) s
 	}
 	c.Saw(core.FnName(fn))
 	fr := &strmFrame{fn: fn, recv: fn.Params[0], toks: map[ssa.Value]string{}}
-	st := &strmState{S: []string{"S0"}, B: []string{"B0"}, cells: map[ssa.Value]string{}, vals: map[ssa.Value]string{}}
+	st := &strmState{S: []string{"S0"}, B: []string{"B0"}, cells: map[ssa.Value]string{}, vals: map[ssa.Value]string{}, ints: map[ssa.Value]int64{}}
 	exits := c.strmRun(fr, st, 0)
 	if len(exits) == 0 {
 		c.Und("F7", key, fn.Pos(), name+" has no returning path")
